@@ -412,3 +412,44 @@ Proof. unfold taptree_p. destruct (taptree_loop _ _ _ _ _ _) eqn:E; cbn [bind]; 
 (* ------------------------------------------------------------------------------------------------ PSET count caps *)
 Lemma pset_reserve_bound sz count : snd (pset_reserve sz count) <= PSET_MAX_COUNT * sz /\ is_panic (fst (pset_reserve sz count)) = false.
 Proof. unfold pset_reserve. destruct (N.ltb_spec PSET_MAX_COUNT count); cbn [fst snd is_panic]; split; try reflexivity; nia. Qed.
+
+(* ------------------------------------------------------------------------------------------------ refinement: the slice parsers written with partial
+   operations are the total functions of Model/Taproot.v (the ones C15 proves round trips about and validates against the crate) *)
+Definition of_tres {A} (r : Taproot.res terr A) : outcome A := match r with Taproot.Ok a => Val a | Taproot.Err e => Fail (terr_name e) end.
+Lemma chunks_p_is_chunks : forall fuel sl, (length sl <= fuel)%nat -> (length sl mod 32 = 0)%nat -> chunks_p fuel sl = Val (chunks fuel NODE_SIZE sl).
+Proof. induction fuel as [|f IH]; intros sl L M; cbn [chunks_p chunks].
+  - destruct sl; [reflexivity|cbn in L; lia].
+  - rewrite NODE_32. change NODE_SIZE with 32%nat. destruct sl as [|b r]; [reflexivity|]. set (s := b :: r) in *.
+    assert (G : (32 <= length s)%nat). { assert (length s <> 0)%nat by (cbn; lia). pose proof (Nat.div_mod (length s) 32 ltac:(lia)). lia. }
+    destruct (Nat.ltb_spec (length s) 32); [lia|]. rewrite firstn_length. replace (Nat.min 32 (length s)) with 32%nat by lia. cbn [Nat.eqb expect bind].
+    rewrite IH; [reflexivity|rewrite skipn_length; lia|]. rewrite skipn_length.
+    pose proof (Nat.div_mod (length s) 32 ltac:(lia)) as D. rewrite M in D.
+    replace (length s - 32)%nat with (32 * (length s / 32 - 1))%nat by lia. rewrite Nat.mul_comm. apply Nat.mod_mul. lia. Qed.
+Lemma branch_from_slice_p_spec sl : branch_from_slice_p sl = of_tres (branch_from_slice sl).
+Proof. unfold branch_from_slice_p, branch_from_slice, Totality.lenN. change TAPROOT_CONTROL_NODE_SIZE with 32.
+  destruct (N.eqb_spec (N.of_nat (length sl) mod 32) 0) as [M|]; cbn [negb]; [|reflexivity]. destruct (_ <? _); [reflexivity|].
+  cbn [of_tres]. apply chunks_p_is_chunks; [lia|]. assert (N.of_nat (length sl mod 32) = 0) by (rewrite Nnat.Nat2N.inj_mod; exact M). lia. Qed.
+Lemma cb_from_slice_p_spec xv sl : cb_from_slice_p xv sl = of_tres (cb_from_slice xv sl).
+Proof. unfold cb_from_slice_p, cb_from_slice, Totality.lenN. change TAPROOT_CONTROL_BASE_SIZE with 33. rewrite BASE_33. change BASE_SIZE with 33%nat.
+  destruct (N.ltb_spec (N.of_nat (length sl)) 33) as [|G]; cbn [bind orb]; [reflexivity|].
+  rewrite usub_ok by lia. cbn [bind]. replace (N.of_nat (length sl - 33)) with (N.of_nat (length sl) - 33) by lia.
+  destruct (negb _); [reflexivity|]. destruct sl as [|b0 rest]; [cbn in G; lia|].
+  rewrite (idx_ok (b0 :: rest) 0 x00) by (cbn; lia). cbn [nth bind].
+  assert (P : N.land (b2n b0) 1 < 2). { change 1 with (N.ones 1). rewrite N.land_ones. apply N.mod_lt. discriminate. }
+  assert (T : forall par : bool, (do b0' <- Val b0;
+      match leafver_from_u8 (N.land (b2n b0') TAPROOT_LEAF_MASK) with
+      | Taproot.Err e => Fail (terr_name e)
+      | Taproot.Ok ver => do key <- slice (b0 :: rest) 1 33; if negb (xv key) then Fail (terr_name InvalidInternalKey) else
+          do rest' <- slice_from (b0 :: rest) 33; do brn <- branch_from_slice_p rest';
+          Val {| cb_ver := ver; cb_parity := par; cb_key := key; cb_branch := brn |} end) =
+     of_tres (match leafver_from_u8 (N.land (b2n b0) TAPROOT_LEAF_MASK) with
+      | Taproot.Err e => Taproot.Err e
+      | Taproot.Ok ver => let key := firstn (33 - 1) rest in
+          if negb (xv key) then Taproot.Err InvalidInternalKey
+          else match branch_from_slice (skipn (33 - 1) rest) with
+               | Taproot.Err e => Taproot.Err e
+               | Taproot.Ok brn => Taproot.Ok {| cb_ver := ver; cb_parity := par; cb_key := key; cb_branch := brn |} end end)).
+  { intros par. cbn [bind]. destruct (leafver_from_u8 _); [|reflexivity]. cbn [length] in G.
+    rewrite slice_ok by (cbn [length]; lia). cbn [bind skipn]. change (33 - 1)%nat with 32%nat. cbv zeta. destruct (negb _); [reflexivity|].
+    rewrite slice_from_ok by (cbn [length]; lia). cbn [bind skipn]. rewrite branch_from_slice_p_spec. destruct (branch_from_slice _); reflexivity. }
+  destruct (N.land (b2n b0) 1) as [|[q|q|]] eqn:Ep; try lia; cbn [N.eqb Pos.eqb orb expect bind]; apply T. Qed.
